@@ -950,6 +950,34 @@ def rule_N5(ctx):
 
 
 # ---------------------------------------------------------------------------------------------- D5
+def _callers_handle(ctx, f, exc):
+    """f is a private function and every call of it (anywhere in the package) sits in the body of a try with a handler for exc."""
+    m = ctx.m
+    if not f.name.startswith('_') or f.name.startswith('__') or f.parent is not None:
+        return False
+    sites = 0
+    for g in m.funcs.values():
+        for x in ast.walk(g.node) if g.parent is None else ():
+            if isinstance(x, ast.Call) and ((isinstance(x.func, ast.Name) and x.func.id == f.name) or (isinstance(x.func, ast.Attribute) and x.func.attr == f.name)):
+                sites += 1
+                ok = False
+                for t in ast.walk(g.node):
+                    if isinstance(t, ast.Try) and any(x is y for b in t.body for y in ast.walk(b)):
+                        if any(G.handler_names(h) & {exc, 'Exception', '*'} for h in t.handlers):
+                            ok = True
+                if not ok:
+                    return False
+    # the name must not be handed around as a value either
+    for g in m.funcs.values():
+        if g.parent is None:
+            calls = {id(x.func) for x in ast.walk(g.node) if isinstance(x, ast.Call)}
+            for x in ast.walk(g.node):
+                if ((isinstance(x, ast.Name) and x.id == f.name) or (isinstance(x, ast.Attribute) and x.attr == f.name)) and id(x) not in calls \
+                        and not (isinstance(x, ast.Name) and isinstance(x.ctx, ast.Store)):
+                    return False
+    return sites > 0
+
+
 def rule_D5(ctx):
     """Leaf calls that raise undocumented classes are contained: next() without default sits under a StopIteration handler,
     struct.pack of a caller-supplied float under an OverflowError handler."""
@@ -973,6 +1001,8 @@ def rule_D5(ctx):
                 n += 1
                 if handled(x, ['StopIteration']):
                     r.ok(f'{f.key}:{norm(x)}')
+                elif _callers_handle(ctx, f, 'StopIteration'):
+                    r.ok(f'{f.key}:{norm(x)}', {'instance': f.key, 'next': norm(x), 'verdict': 'private helper: every call site sits under a StopIteration handler'})
                 else:
                     is_gen = any(isinstance(y, (ast.Yield, ast.YieldFrom)) for y in own_walk(f.node))
                     r.fail(f.key, x, 'next() without a default outside a StopIteration handler: an exhausted iterator surfaces as StopIteration'
